@@ -625,7 +625,7 @@ def oracle(a, o):
     if k in ("uindex", "uat", "uslice", "uduring"):
         ax = a["axis"]
         exp = expected_axis(a["build"])
-        if exp is not None and exp != ax and a.get("dv") != "rewrap":   # UniformTime(axis) is a C02 constructor path
+        if exp is not None and exp != ax:
             return fail("C03/UniformTime/state", "samples / t0 / interval / duration of the axis (built%s) differ from its specification"
                         % (", then derived by %s" % a["dv"] if a.get("dv") else ""), {k_: ax[k_] for k_ in ("t0", "dt", "dur", "u")},
                         {k_: exp[k_] for k_ in ("t0", "dt", "dur", "u")})
